@@ -34,6 +34,12 @@ def _scenario(kind, nproc, ev, want, replaced=False):
         w.tick()
         if len(p._pool) != nproc:
             raise Prune()
+        if nproc == 1:
+            # ... and the pool was grown afterwards: every worker of the pool as it is at close() gets its sentinel
+            p.grow(1)
+            w.tick()
+            if len(p._pool) != 2:
+                raise Prune()
     nd = ND(ev)
     obs = []
     expect = []
